@@ -7,7 +7,7 @@ from penman.tree import Tree
 
 from pv.gen import models, trees
 from pv.harness import Enum, Hyp
-from pv.props.common import fmt, tree_classes, tree_stats
+from pv.props.common import fmt, noise_calls, tree_classes, tree_stats
 from pv.ref import interp
 from pv.ref.role import build_model
 
@@ -28,6 +28,7 @@ def check(case):
     if interp.wellformed(node, spec) is not None:
         return []
     m = build_model(spec)
+    noise_calls(m, node)
     g = layout.interpret(Tree(node), m)
     rd = interp.interpret(node, spec)
     f = []
